@@ -33,7 +33,7 @@ PROGRAMS = [
     ('newlines', "book('The magic\nof embedded\nnewlines').\nbook('a\n# not a comment').\np(X) :- book(X), X \\= 'two\nlines'.\n", 'ok'),
     ('unicode', "book('五輪書').\nauthor('é', X) :- X = 'ü'.\n", 'ok'),
     ('syntax-error', 'foo(a).\nbar(b :- c.\n', 'syntax'),
-    ('control', 'add(X,L,L) :- member(X,L), !.\nadd(X,L,[X|L]).\ng(X) :- ( a(X) -> b(X) ; c(X) ), \\+ d(X).\n', 'ok'),
+    ('control', 'add(X,L,L) :- member(X,L), !.\nadd(X,L,[X|L]).\ng(X) :- ( a(X) -> b(X) ; c(X) ), \\+ d(X).\nh(X) :- ( p(X) -> q(X) ; r(X) ).\nk(X) :- \\+ h(X), ( g(X) -> true ; fail ).\n', 'ok'),
     ('lists', "four([_,_,_,_]).\nsplit([H|T], H, T).\nq('it\\'s', [1,2,3], f(g(h))).\n", 'ok'),
     ('empty', '', 'ok'),
     ('comments', '% only a comment\n% and another\n', 'ok'),
